@@ -20,8 +20,8 @@ type MemAcc struct {
 	MaskReg  string
 	LaneSize int
 	PostInc  int64
-	Aligned  bool // aligned-only opcode with a memory operand
-	FPSlot   bool // access to the routine's own argument/result frame
+	Aligned  bool   // aligned-only opcode with a memory operand
+	FPSlot   bool   // access to the routine's own argument/result frame
 	Index    string // index register (indexed addressing)
 }
 
